@@ -12,6 +12,7 @@
    recursively to depth n, the contents of the objects it refers to (a sample
    dict -> its tensors).  It does not mention addresses, so two samples are
    "the same" when their values are equal. *)
+From Coq Require Import String.
 From Coq Require Import List Arith NArith Bool.
 Import ListNotations.
 From SV Require Import C11.AliasIR.
@@ -86,3 +87,21 @@ Definition hpts_rebind (r : root) : list root :=
   | ASite 0%N => [AParam 0; ASite 2%N]
   | _ => []
   end.
+
+(* ---- a concrete deterministic reader (review finding 3) ----
+   `rd_of fuel p res`: the script-guided interpreter `srun` of AliasIR.v on the body p with the EMPTY
+   script (every branch takes its first side, no loop iterates, every projection returns the view),
+   returning the object bound to `res`.  It refines `exec` for EVERY program (LemmasH.rd_of_refines_l:
+   contract 1 of same_index_same_sample holds for it unconditionally); contract 2 (locality) is proved
+   for the example program `p_reader_ex` below (`x = args[0]; return {"k": x}`: allocates, and its
+   result refers to a pre-existing object). *)
+Definition rd_of (fuel : nat) (p : stmt) (res : var) (h : heap) (args : list obj) : obj * heap :=
+  match srun fuel args p [] ([], h) with
+  | Some (_, (e', h')) => (match elookup e' res with Some o => o | None => length h' end, h')
+  | None => (length h, h)
+  end.
+
+Definition p_reader_ex : stmt := SSeq (SAssign 0%N (RParam 0)) (SAssign 1%N (RBox 7%N [0%N])).
+Definition f_reader_ex : fn :=
+  mkfn "reader_ex" 1 1%N p_reader_ex
+       [(0%N, [AParam 0]); (1%N, [ASite 7%N])] [(ASite 7%N, [AParam 0])].
